@@ -4,11 +4,12 @@ import json, os, re, subprocess
 V = os.path.dirname(os.path.abspath(__file__))
 props = [json.loads(l) for l in open(os.path.join(V, "properties.jsonl"))]
 checks, na = [], []
+claimed = set(open(os.path.join(V, "claimed.txt")).read().split())
 pending = json.load(open(os.path.join(V, "pending.json"))) if os.path.exists(os.path.join(V, "pending.json")) else {}
 for p in props:
     pid = p["id"]
     cp = os.path.join(V, "harness", pid.lower(), "check.json")
-    if os.path.exists(cp) and json.load(open(cp)).get("claimed", True):
+    if os.path.exists(cp) and pid in claimed:
         c = json.load(open(cp))
         checks.append({
             "property_id": pid,
